@@ -75,17 +75,22 @@ func log(level Severity, msg string, tracer *ContextTracer) {
 		file:      file,
 		line:      line,
 	}
+	verifEvent("p:line", log)
 
 	// send log to processing
 	select {
 	case logBuffer <- log:
+		verifEvent("p:enq", log)
 	default:
+		verifEvent("p:full", log)
 	forceEmptyingLoop:
 		// force empty buffer until we can send to it
 		for {
 			select {
 			case forceEmptyingOfBuffer <- struct{}{}:
+				verifEvent("p:forced", log)
 			case logBuffer <- log:
+				verifEvent("p:enqB", log)
 				break forceEmptyingLoop
 			}
 		}
@@ -93,11 +98,15 @@ func log(level Severity, msg string, tracer *ContextTracer) {
 
 	// wake up writer if necessary
 	if logsWaitingFlag.SetToIf(false, true) {
+		verifEvent("p:won", log)
 		select {
 		case logsWaiting <- struct{}{}:
+			verifEvent("p:tok", log)
 		default:
+			verifEvent("p:tokFull", log)
 		}
 	}
+	verifEvent("p:ret", log)
 }
 
 func fastcheck(level Severity) bool {
